@@ -87,7 +87,8 @@ def thread_plan(rkspec, seed: int, mode: str, k: int) -> dict:
     from checks import threadpure
 
     # (the same SID twice: two threads work with the same group key right after the process dealt with another one)
-    sids = ([SID, SID, SID2], [SID, SID2], [SID, SID2, offline.sid_shape(3, k)], [SID, SID])[k % 4]
+    r = __import__("random").Random(seed)  # (pattern, mode and pre-emption policy are drawn independently of each other)
+    sids = r.choice(([SID, SID, SID2], [SID, SID2], [SID, SID2, offline.sid_shape(3, k)], [SID, SID], [SID, SID]))
     ops = [{"op": "identity", "sids": [] if mode == "pub" else list(sids) + [SID2]},
            {"op": "protect", "fl": "sync", "sid": SID2, "rk": None, "net": "online", "data": 5, "cache": "fresh"}]  # an earlier derivation in this process
     for sid in sids:
@@ -97,7 +98,27 @@ def thread_plan(rkspec, seed: int, mode: str, k: int) -> dict:
     for j in range(len(sids)):
         ops.append({"op": "unprotect", "fl": "thread", "group": 2, "net": "online", "blob": {"from_op": 2 + j}, "cache": "fresh"})
     return {"seed": seed, "clock_ft": FT, "root_keys": [rkspec], "caller_sids": [], "ctx": {"kind": "stub", "legs": 2, "sig": 16},
-            "ops": ops, "entropy_script": [], "mode": mode, "threads": threadpure.policy_for(k), "family": "threads"}
+            "ops": ops, "entropy_script": [], "mode": mode, "threads": ({"mode": "prob", "p": r.choice((0.1, 0.3, 0.5))} if r.random() < 0.5 else threadpure.policy_for(r.randrange(48))), "family": "threads"}
+
+
+def same_prime_plan(seed: int, k: int, fl_p: str, fl_u: str) -> dict:
+    """Two root keys whose DH groups share the prime but differ in key_length padding and / or generator, used one after the other
+    in one process (a group cached by its prime alone would serve the wrong key_length or generator)."""
+    kl = (2, 3, 4, 8)[k % 4]
+    g0 = small_group(kl, k % 40)
+    g1 = [g0[0] + (0, 2, 4)[k % 3], g0[1], g0[2] if k % 3 else (3 if g0[2] != 3 else 5)]
+    h = offline.HASHES[k % 4]
+    rks = [[56, h, "DH", {"dh": g0, "priv_len": kl * 8}], [57, h, "DH", {"dh": g1, "priv_len": kl * 8}]]
+    if k % 2:
+        rks.reverse()
+    ops = [{"op": "identity", "sids": []},
+           {"op": "protect", "fl": fl_p, "sid": SID, "rk": 0, "net": "online", "data": 19, "cache": "fresh"},
+           {"op": "protect", "fl": fl_p, "sid": SID, "rk": 1, "net": "online", "data": 19, "cache": "fresh"},
+           {"op": "identity", "sids": [SID]},
+           {"op": "unprotect", "fl": fl_u, "net": "online", "blob": {"from_op": 1}, "cache": "fresh"},
+           {"op": "unprotect", "fl": fl_u, "net": "online", "blob": {"from_op": 2}, "cache": "fresh"}]
+    return {"seed": seed, "clock_ft": FT, "root_keys": rks, "caller_sids": [], "ctx": {"kind": "stub", "legs": 2, "sig": 16},
+            "ops": ops, "entropy_script": [], "mode": "pub", "family": "same-prime"}
 
 
 def lz(b: bytes) -> int:
@@ -109,14 +130,18 @@ def judge(plan, tr: P.Trace):
     rk = tr.root_keys[0]
     prots = [ot for ot in tr.ops if ot.op["op"] == "protect"]
     unps = [ot for ot in tr.ops if ot.op["op"] == "unprotect"]
-    if len(prots) > 1 and plan.get("family") != "threads":
+    if len(prots) > 1 and plan.get("family") not in ("threads", "same-prime"):
         probes["two_sids_same_position"] = 1
     if plan.get("family") == "threads":
         probes["thread_plans"] = 1
         probes["thread_overlap"] = tr.world.stats.get("toverlap", 0)
     if any(e["hex"][:6] in (b"DHP".hex(), b"ECK".hex()) for e in plan["entropy_script"]):
         probes["nonce_with_structure_magic"] = 1
+    if plan.get("family") == "same-prime":
+        probes["two_groups_same_prime"] = 1
     for prot, unp in zip(prots, unps):
+        if plan.get("family") == "same-prime":
+            rk = tr.root_keys[prot.op["rk"]]
         v = _judge_pair(plan, tr, rk, prot, unp, probes)
         if v:
             return v, probes
@@ -189,13 +214,14 @@ class C03(common.Check):
             "library unprotects as the authorised principal]. 4 hashes x {nonce, DH RFC 5114, P256, P384} with a committed table of draws that "
             "give a leading-zero ephemeral public value / X / Y coordinate / shared secret; small DH groups (2..8-byte primes, private key "
             "lengths that are not multiples of 8) where leading zeros are frequent; scripted all-zero / leading-zero nonces and nonces that begin with the magic of a public-key structure; PRNG draws; "
+            "two root keys whose DH groups share the prime but differ in key_length padding / generator used one after the other in one process; "
             "plans in which 2..3 principals protect (and later unprotect) at the same time from caller threads of one process, pre-empted at "
             "PRNG-chosen line events inside dpapi_ng. "
             "Non-trivial = a leading-zero condition held (measured with the reference arithmetic); distinct = distinct plan.")
     components = {"client": "real (new_kek / get_kek / compute_kek / compute_public_key through the public API)", "entropy": "simulated, scripted draws",
                   "DC": "model (RefDC, public-key and seed replies)", "independent implementation": "ref.gkdi + ref.ec (own P-256/P-384 arithmetic, pow() DH, hashlib KDFs)"}
     assumptions = ["reference calibrated on the 16 Windows blobs (gate before every run)", "hash x algorithm sweep is workload parameterisation"]
-    required_fired = ("two_sids_same_position", "key_length_wider_than_modulus", "lz_shared_secret", "lz_public_value", "lz_coord_x", "lz_coord_y", "lz_nonce", "agree_DH_pub", "agree_ECDH_P256_pub", "agree_ECDH_P384_pub", "agree_DH_nonce", "thread_plans", "thread_overlap", "nonce_with_structure_magic")
+    required_fired = ("two_sids_same_position", "key_length_wider_than_modulus", "lz_shared_secret", "lz_public_value", "lz_coord_x", "lz_coord_y", "lz_nonce", "agree_DH_pub", "agree_ECDH_P256_pub", "agree_ECDH_P384_pub", "agree_DH_nonce", "thread_plans", "thread_overlap", "nonce_with_structure_magic", "two_groups_same_prime")
 
     def cases(self, tier, seed):
         rng = prng.stream(seed, "C03")
@@ -212,10 +238,12 @@ class C03(common.Check):
                 for tail in (b"\x00\x01\x00\x00" + b"\x22" * 24, b"\x20\x00\x00\x00" + b"\x33" * 24, bytes(range(28))):
                     out.append(base_plan([51, h, "DH"], len(out), "nonce", rng.choice(("sync", "async")), rng.choice(("sync", "async")),
                                          [{"source": "urandom", "n": 32, "hex": (magic + tail).hex()}]))
-        for k in range(160 if tier == "quick" else 8000):
+        for k in range(240 if tier == "quick" else 12000):
             kl = (2, 3, 4, 8)[k % 4]
             spec = [54 + k % 3, offline.HASHES[k % 4], "DH", {"dh": small_group(kl, k % 40), "priv_len": kl * 8}] if k % 5 else [55, offline.HASHES[k % 4], offline.SECRETS[k % 3]]
-            out.append(thread_plan(spec, rng.getrandbits(31), "pub" if k % 4 else "nonce", k))
+            out.append(thread_plan(spec, rng.getrandbits(31), "pub" if rng.random() < 0.8 else "nonce", k))
+        for k in range(120 if tier == "quick" else 6000):
+            out.append(same_prime_plan(rng.getrandbits(31), k, rng.choice(("sync", "async")), rng.choice(("sync", "async"))))
         n_small = 1500 if tier == "quick" else 60000
         for i in range(n_small):
             kl = rng.choice((2, 2, 3, 3, 4, 5, 8))
